@@ -26,6 +26,21 @@ type EPlain struct{ S string }
 
 func (e EPlain) Error() string { return "plain:" + e.S }
 
+// EWrap: an error that wraps another one (Unwrap) — its own dynamic type is what the registry must look at,
+// not the type of anything down its chain.
+type EWrap struct {
+	S     string
+	Inner error
+}
+
+func (e EWrap) Error() string {
+	if e.Inner == nil {
+		return "wrap:" + e.S
+	}
+	return "wrap:" + e.S + ": " + e.Inner.Error()
+}
+func (e EWrap) Unwrap() error { return e.Inner }
+
 // EPtr: Error() on the pointer only.
 type EPtr struct{ S string }
 
@@ -89,7 +104,7 @@ type Ty struct {
 	Ptr  bool   `json:"ptr"`
 }
 
-var names = []string{"EPlain", "EPtr", "EMarsh", "ECodec"}
+var names = []string{"EPlain", "EPtr", "EMarsh", "ECodec", "EWrap"}
 
 func goType(t Ty) reflect.Type {
 	var rt reflect.Type
@@ -102,6 +117,8 @@ func goType(t Ty) reflect.Type {
 		rt = reflect.TypeOf(EMarsh{})
 	case "ECodec":
 		rt = reflect.TypeOf(ECodec{})
+	case "EWrap":
+		rt = reflect.TypeOf(EWrap{})
 	}
 	if t.Ptr {
 		rt = reflect.PointerTo(rt)
@@ -137,6 +154,7 @@ type Spec struct {
 	Msg     string `json:"msg"`
 	Content string `json:"content"`
 	Fail    string `json:"fail"`
+	Inner   *Ty    `json:"inner,omitempty"` // EWrap only: the dynamic type of the wrapped error
 }
 
 func (s Spec) build() error {
@@ -153,6 +171,12 @@ func (s Spec) build() error {
 		v = EMarsh{Msg: s.Msg, Content: s.Content, Fail: s.Fail}
 	case "ECodec":
 		v = ECodec{Msg: s.Msg, Content: s.Content, Fail: s.Fail}
+	case "EWrap":
+		w := EWrap{S: s.Msg}
+		if s.Inner != nil && s.Inner.Name != "EWrap" {
+			w.Inner = Spec{Ty: *s.Inner, Msg: "inner " + s.Msg, Content: s.Content}.build()
+		}
+		v = w
 	}
 	if s.Ty.Ptr {
 		p := reflect.New(reflect.TypeOf(v))
@@ -214,6 +238,10 @@ func contentOf(err error) (Ty, string, bool) {
 		return Ty{"ECodec", false}, e.Content, true
 	case *ECodec:
 		return Ty{"ECodec", true}, e.Content, true
+	case EWrap:
+		return Ty{"EWrap", false}, e.S, true
+	case *EWrap:
+		return Ty{"EWrap", true}, e.S, true
 	}
 	return Ty{}, "", false
 }
@@ -266,6 +294,13 @@ func Run(d *fw.Driver, res *fw.Result, seed int64, n int, corpus []json.RawMessa
 		sp.Ty = Ty{fw.Pick(r, names), r.Intn(2) == 0}
 		if sp.Ty.Name == "EPtr" {
 			sp.Ty.Ptr = true
+		}
+		if sp.Ty.Name == "EWrap" {
+			in := Ty{fw.Pick(r, []string{"EPlain", "EPtr", "EMarsh", "ECodec"}), r.Intn(2) == 0}
+			if in.Name == "EPtr" {
+				in.Ptr = true
+			}
+			sp.Inner = &in
 		}
 		if r.Intn(5) == 0 {
 			sp.Fail = fw.Pick(r, []string{"marshal", "unmarshal", "to", "from"})
@@ -491,7 +526,7 @@ func one(d *fw.Driver, res *fw.Result, c *Case) error {
 
 func contentOfSpec(sp Spec) string {
 	switch sp.Ty.Name {
-	case "EPlain", "EPtr":
+	case "EPlain", "EPtr", "EWrap":
 		return sp.Msg
 	}
 	return sp.Content
